@@ -768,7 +768,9 @@ Definition step (w : world) (a : action) : world :=
   | UserRaiseMax n =>
       match w_exp w with
       | Some e => match e_max e with
-                  | Some m => if (m <? n) && negb (e_deleting e) then
+                  | Some m => if (m <? n) && negb (e_deleting e) &&
+                                 (negb (e_completed (e_st e)) || restartable (w_cfg w) (e_st e)) (* the update rule of the validating webhook, C15 *)
+                              then
                                 set_exp w (Some {| e_max := Some n; e_fin := e_fin e; e_deleting := e_deleting e; e_st := e_st e; e_rv := S (e_rv e) |})
                               else w
                   | None => w
